@@ -229,7 +229,8 @@ class Job:
         `replay` (module:function, evaluated on the unpatched repo code) reproduces it.
         inputs: {name: z3 term} whose model values are handed to the replay function."""
         conds = list(conds)
-        self._collect(replay, list(fallback)[:2])
+        static = {k: v for k, v in (inputs or {}).items() if not isinstance(v, z3.ExprRef) and not hasattr(v, "t")}
+        self._collect(replay, [dict(static, **dict(f)) for f in list(fallback)[:2]] or ([static] if static else []))
         negs = neg if isinstance(neg, (list, tuple)) else [neg]
         if congruence:
             # near=d: only applications within d definition levels of the goal (earlier steps are covered by lemmas)
